@@ -158,6 +158,11 @@ impl Prop for C14 {
         run(specs, indices, ctx.profile)
     }
     fn replay(&self, ctx: &Ctx, spec: &Value) -> RunReport {
+        if let Some(idx) = spec["from_index"].as_u64() {
+            let prefixes: Vec<u64> = spec["prefixes"].as_array().map(|a| a.iter().filter_map(|x| x.as_u64()).collect()).unwrap_or_default();
+            let s = small_spec(seed::run_seed(ctx.base_seed ^ 0xC14, idx));
+            return run(vec![(s, prefixes)], &[idx], ctx.profile).pop().unwrap();
+        }
         let c: CrashSpec = serde_json::from_value(spec.clone()).expect("bad C14 spec");
         run(vec![(c.source, c.prefixes)], &[0], ctx.profile).pop().unwrap()
     }
